@@ -872,7 +872,10 @@ class Executor:
         return r
 
     def call_func(self, func, args):
-        func.parse()
+        try:
+            func.parse()
+        except MirSyntax as e:
+            raise Unsupported(f"MIR of {func.name} not understood: {e}")
         self.prog.executed.add(func.name)
         fr = Frame(func)
         if len(args) != len(func.params):
